@@ -377,6 +377,13 @@ func CheckC06(e *Env) int {
 	}
 	cases = append(cases, nearMissCases()...)
 	cases = append(cases, multiMissingCases(e)...)
+	// what another injector of the package (or an equally named set of another package)
+	// provides is not a source for this one
+	for _, rc := range crossInjectorCases() {
+		if rc.Class == "missing" {
+			cases = append(cases, rc)
+		}
+	}
 	runRejectCases(e, rep, cases, "c06")
 	return rep.Finish(t0)
 }
@@ -582,6 +589,11 @@ func CheckC08(e *Env) int {
 	}
 	// injectors that construct nothing (the result is one of their own parameters, directly or
 	// through a binding) or a single value: anything else listed is superfluous all the same
+	for _, rc := range crossInjectorCases() {
+		if rc.Class == "unused" {
+			cases = append(cases, rc)
+		}
+	}
 	for _, base := range passThroughBases() {
 		cases = append(cases, &RejectCase{P: base, Control: true, Cell: "control:" + base.Note})
 		cases = append(cases, superfluousMutants(base, base.ID, kinds)...)
